@@ -32,6 +32,9 @@ type CredOp struct {
 	Addr string   `json:"addr"`
 	Cred CredSpec `json:"cred,omitempty"`
 	Task int      `json:"task,omitempty"`
+	// Cancelled (put, delete; sequential histories): the call is made with a context that has ended.
+	// It may take effect and succeed, or fail - then it must never take effect, later either
+	Cancelled bool `json:"cancelled,omitempty"`
 }
 
 func (o CredOp) String() string {
@@ -157,6 +160,8 @@ func (p *credProp) Gen(r *Rand, tier string, idx int) any {
 		}
 		if cp.Tasks > 1 {
 			op.Task = r.Intn(cp.Tasks)
+		} else if (op.Op == "put" || op.Op == "delete") && r.Chance(0.08) {
+			op.Cancelled = true
 		}
 		cp.Ops = append(cp.Ops, op)
 	}
@@ -354,6 +359,11 @@ func (m *credModel) apply(op CredOp) credRes {
 
 func execCred(fs *credentials.FileStore, op CredOp) credRes {
 	ctx := context.Background()
+	if op.Cancelled {
+		c, cancel := context.WithCancel(ctx)
+		cancel()
+		ctx = c
+	}
 	switch op.Op {
 	case "reput":
 		c, err := fs.Get(ctx, op.Addr)
@@ -534,6 +544,17 @@ func (p *credProp) sequential(rc *RunCtx, sc *Scenario, cp *CredParams, info *Ru
 				}
 				got := execCred(fs, op)
 				rc.Logf("step %d %s -> %+v (model %+v)", i, op, got, exp)
+				if op.Cancelled && got.Err != "" && got.Err != "badformat" {
+					// refused with its context: then it has no effect, now or later (the file is compared
+					// with the unchanged model after this and after every later step)
+					next, exp = m.clone(), got
+					for k := 0; k < 3; k++ {
+						simrt.Yield("settle")
+					}
+					info.Probes["call_refused_with_ended_context"]++
+				} else if op.Cancelled {
+					info.Probes["call_completed_with_ended_context"]++
+				}
 				if got != exp {
 					v = violation("answer-differs-from-model", "", "step %d %s: store answered %+v, model expects %+v\nhistory: %v", i, op, got, exp, cp.Ops[:i+1])
 					return
